@@ -24,7 +24,24 @@ func init() {
 		x.assumed["extern strings.Contains: axiomatised for one-byte patterns only (exists an index holding that byte); longer patterns uninterpreted"] = true
 		return Val{T: sx("strcontains", s, p)}, true
 	}
-	pureExterns["strings.EqualFold"] = func(x *Exec, f *frame, m int, a []Val, in ssa.Value) (Val, bool) {
+	// strings.CutPrefix(s, p) (after string, found bool)
+	pureExterns["strings.CutPrefix"] = func(x *Exec, f *frame, m int, a []Val, in ssa.Value) (Val, bool) {
+		s, p := a[0].T, a[1].T
+		has := and(sx(">=", sx("slen", s), sx("slen", p)), eq(sx("substr", s, "0", sx("slen", p)), p))
+		return Val{Tu: []Val{{T: ite(has, sx("substr", s, sx("slen", p), sx("slen", s)), s)}, {T: has}}}, true
+	}
+	// strings.LastIndex(s, p) for a one-byte pattern p: the last index holding that byte, or -1
+	pureExterns["strings.LastIndex"] = func(x *Exec, f *frame, m int, a []Val, in ssa.Value) (Val, bool) {
+		s, p := a[0].T, a[1].T
+		x.X.declare("strlastindex", `(declare-fun strlastindex (Str Str) Int)
+(assert (forall ((s Str) (p Str)) (! (=> (= (slen p) 1) (let ((r (strlastindex s p)) (c (select (sdata p) 0)))
+  (and (<= (- 1) r) (< r (slen s))
+       (=> (>= r 0) (= (select (sdata s) r) c))
+       (forall ((j Int)) (! (=> (and (< r j) (< j (slen s))) (not (= (select (sdata s) j) c))) :pattern ((select (sdata s) j))))))) :pattern ((strlastindex s p)))))`)
+		x.assumed["extern strings.LastIndex: axiomatised for one-byte patterns (last index holding the byte, or -1 if none); longer patterns uninterpreted"] = true
+		return Val{T: sx("strlastindex", s, p)}, true
+	}
+	pureExterns["strings.EqualFold"] =func(x *Exec, f *frame, m int, a []Val, in ssa.Value) (Val, bool) {
 		x.useLower()
 		return Val{T: eq(sx("strlower", a[0].T), sx("strlower", a[1].T))}, true
 	}
